@@ -1,0 +1,30 @@
+//go:build verif
+
+// Verification hook (add-only, compiled only with -tags verif): exports the internal file loader
+// so that the /verif harness can drive it directly. Nothing here changes behaviour.
+package krusty
+
+import (
+	"sigs.k8s.io/kustomize/api/ifc"
+	"sigs.k8s.io/kustomize/api/internal/git"
+	fLdr "sigs.k8s.io/kustomize/api/internal/loader"
+	"sigs.k8s.io/kustomize/kyaml/filesys"
+)
+
+// VerifC05NewLoader is loader.NewLoader with the root-only or the no-op restrictor.
+func VerifC05NewLoader(rootOnly bool, target string, fSys filesys.FileSystem) (ifc.Loader, error) {
+	lr := fLdr.RestrictionNone
+	if rootOnly {
+		lr = fLdr.RestrictionRootOnly
+	}
+	return fLdr.NewLoader(lr, target, fSys)
+}
+
+// VerifC05IsRemoteFile is loader.IsRemoteFile.
+func VerifC05IsRemoteFile(path string) bool { return fLdr.IsRemoteFile(path) }
+
+// VerifC05IsRepoURL reports whether git.NewRepoSpecFromURL accepts the string.
+func VerifC05IsRepoURL(path string) bool {
+	_, err := git.NewRepoSpecFromURL(path)
+	return err == nil
+}
